@@ -216,24 +216,62 @@ pub fn get_plural_rules<L: Locale>(
 pub(crate) mod inner {
     use super::*;
     use icu_locid::Locale as IcuLocale;
+    #[cfg(not(feature = "verif_loom"))]
     use std::{
         collections::HashMap,
         sync::{OnceLock, RwLock},
     };
+    // verification hook: same code, lock taken from the `loom` model checker
+    #[cfg(feature = "verif_loom")]
+    use self::verif_loom::OnceLock;
+    #[cfg(feature = "verif_loom")]
+    use loom::sync::RwLock;
+    #[cfg(feature = "verif_loom")]
+    use std::collections::HashMap;
+
+    #[cfg(feature = "verif_loom")]
+    mod verif_loom {
+        /// `std::sync::OnceLock` whose initialisation goes through a loom lock, so that loom's scheduler sees it.
+        #[derive(Debug, Default)]
+        pub struct OnceLock<T>(loom::sync::Mutex<()>, std::sync::OnceLock<T>);
+
+        impl<T> OnceLock<T> {
+            pub fn new() -> Self {
+                OnceLock(loom::sync::Mutex::new(()), std::sync::OnceLock::new())
+            }
+
+            pub fn get_or_init(&self, f: impl FnOnce() -> T) -> &T {
+                let _guard = self.0.lock().unwrap();
+                self.1.get_or_init(f)
+            }
+        }
+    }
 
     // Formatters cache
     //
     // The reason we leak the formatter is so that we can get a static ref,
     // making possible to return values borrowing from the formatter,
     // such as all *Formatter::format(..) returned values.
+    #[cfg(not(feature = "verif_loom"))]
     pub static FORMATTERS: StaticLock<Formatters> = StaticLock::new();
+    // re-created for every execution loom explores
+    #[cfg(feature = "verif_loom")]
+    loom::lazy_static! {
+        pub static ref FORMATTERS: StaticLock<Formatters> = StaticLock::new();
+    }
 
     #[derive(Debug, Default)]
     #[repr(transparent)]
     pub struct StaticLock<T>(OnceLock<RwLock<T>>);
 
     impl<T> StaticLock<T> {
+        #[cfg(not(feature = "verif_loom"))]
         pub const fn new() -> Self {
+            StaticLock(OnceLock::new())
+        }
+
+        #[cfg(feature = "verif_loom")]
+        pub fn new() -> Self {
             StaticLock(OnceLock::new())
         }
 
